@@ -952,7 +952,7 @@ impl<'a> Lifter<'a> {
 
     /// L27: recognise `for (i, &j) in <list>.iter().enumerate() { <arr>.set(j, e); }` / `{ <arr>[j] = e; }` with `arr` a
     /// local real array; returns (arr, i, j, list expression, e)
-    fn scatter_loop(&self, f: &syn::ExprForLoop) -> Option<(String, String, String, syn::Expr, syn::Expr)> {
+    fn scatter_loop(&self, f: &syn::ExprForLoop) -> Option<(String, String, String, syn::Expr, syn::Expr, syn::Expr)> {
         let syn::Pat::Tuple(tp) = &*f.pat else { return None };
         if tp.elems.len() != 2 {
             return None;
@@ -986,21 +986,22 @@ impl<'a> Lifter<'a> {
                 _ => false,
             }
         };
-        let (arr, val) = match &f.body.stmts[0] {
-            syn::Stmt::Expr(syn::Expr::MethodCall(m), _) if m.method == "set" && m.args.len() == 2 && is_j(&m.args[0]) => {
+        let _ = &is_j;
+        let (arr, idx, val) = match &f.body.stmts[0] {
+            syn::Stmt::Expr(syn::Expr::MethodCall(m), _) if m.method == "set" && m.args.len() == 2 => {
                 let syn::Expr::Path(p) = &*m.receiver else { return None };
-                (p.path.get_ident()?.to_string(), m.args[1].clone())
+                (p.path.get_ident()?.to_string(), m.args[0].clone(), m.args[1].clone())
             }
             syn::Stmt::Expr(syn::Expr::Assign(a), _) => {
                 let syn::Expr::Index(ix) = &*a.left else { return None };
-                if !is_j(&ix.index) {
-                    return None;
-                }
                 let syn::Expr::Path(p) = &*ix.expr else { return None };
-                (p.path.get_ident()?.to_string(), (*a.right).clone())
+                (p.path.get_ident()?.to_string(), (*ix.index).clone(), (*a.right).clone())
             }
             _ => return None,
         };
+        if Self::idents_of(&idx).contains(&arr) {
+            return None;
+        }
         if self.lookup(&arr).as_deref() != Some("RArr") {
             return None;
         }
@@ -1008,7 +1009,7 @@ impl<'a> Lifter<'a> {
         if Self::idents_of(&val).contains(&arr) {
             return None;
         }
-        Some((arr, iv, jv, (*it.receiver).clone(), val))
+        Some((arr, iv, jv, (*it.receiver).clone(), idx, val))
     }
     /// the summand of a lifted sum as a named spec function of the variables it mentions (so that lemmas can speak
     /// about one term): returns the closure text `|i: int| name(captured.., i)`
@@ -1486,7 +1487,7 @@ impl<'a> Lifter<'a> {
             Expr::ForLoop(f) if self.scatter_loop(f).is_some() => {
                 // L27: `for (i, &j) in list.iter().enumerate() { arr.set(j, e(i)) }` (or `arr[j] = e(i)`): the array with
                 // the elements at list[0], list[1], .. replaced in this order (a later i wins)
-                let (arr, iv, jv, list_e, val_e) = self.scatter_loop(f).unwrap();
+                let (arr, iv, jv, list_e, idx_e, val_e) = self.scatter_loop(f).unwrap();
                 let list = self.expr(&list_e)?;
                 if list.ty != "Seq<int>" {
                     return Err(format!("construct outside rule list (lift): scatter loop over {}", list.ty));
@@ -1496,15 +1497,21 @@ impl<'a> Lifter<'a> {
                 self.bind(&iv, "int");
                 self.bind(&jv, "int");
                 let val = self.scoped(&val_e);
+                let idx = self.scoped(&idx_e);
                 self.env.pop();
                 self.closure_base.pop();
                 let val = val?;
+                let idx = idx?;
+                if idx.ty != "int" {
+                    return Err(format!("construct outside rule list (lift): scatter loop with index of type {}", idx.ty));
+                }
                 if val.ty != "real" {
                     return Err(format!("construct outside rule list (lift): scatter loop storing {}", val.ty));
                 }
                 self.note("L27", e.span(), "scatter loop lifted to an ordered element replacement (later index wins)");
                 let mut ids = Self::idents_of(&list_e);
-                let idx_fn = self.hoist_closure("scatter_idx", &ids, &iv, &v(format!("{}[{iv}]", list.text), "int"));
+                ids.extend(Self::idents_of(&idx_e));
+                let idx_fn = self.hoist_closure("scatter_idx", &ids, &iv, &v(format!("{{ let {jv} = {}[{iv}]; {} }}", list.text, idx.text), "int"));
                 ids.extend(Self::idents_of(&val_e));
                 let val_fn = self.hoist_closure("scatter_val", &ids, &iv, &v(format!("{{ let {jv} = {}[{iv}]; {} }}", list.text, val.text), "real"));
                 self.bind(&arr, "RArr");
